@@ -450,7 +450,7 @@ def run(ctx):
     prog, info = lc.load()
     ctx.bounds.update({'calls': 'one call per run (a fresh oneshot pair per call is shown structurally: concurrent calls share nothing but the target mailbox, see C02); timeout value fully symbolic',
                        'environment': 'before every poll of the reply receiver the callee side may have replied (any value), dropped the port, or done nothing; up to 3 polls',
-                       'multi_call': 'thorough tier: 2 actors, tasks completing in either order, up to 4 polls of the outer future',
+                       'multi_call': '2 actors, tasks completing in either order, up to 4 polls of the outer future',
                        'outside': 'multi_call with more than 2 actors; tokio timer accuracy and the oneshot implementation (contracts); '
                                   'that a dying callee really drops queued ports is C08 (ActorPortSet::drop) and C07 (refused sends)'})
     ctx.assumptions += ['tokio oneshot contract: a value sent is received exactly once by the paired receiver; a dropped sender yields RecvError once nothing is queued',
@@ -460,8 +460,7 @@ def run(ctx):
     check_call(ctx, prog, 'DerivedActorRef::<TMessage>::call', 'derived')
     check_forward(ctx, prog)
     check_reply_port(ctx, prog)
-    if ctx.tier != 'quick':
-        check_multi(ctx, prog)
+    check_multi(ctx, prog)
 
 
 def replay_file(path):
